@@ -207,10 +207,18 @@ def direction_B(ctx, thorough):
             for rep in range(3 if thorough else 1):
                 tid += 1
                 plan.append((tid, fmt, al, False))
+    # several extents behind one VMDK object (handles or descriptor, with and without a parent)
+    for al in ((512, 8192, 65536) if not thorough else (512, 4096, 8192, 65536, 1 << 20)):
+        tid += 1
+        plan.append((tid, "vmdk-extents", al, False))
     byid = {t[0]: t for t in plan}
 
     def mk(tid, rng):
         _, fmt, al, many = byid[tid]
+        if fmt == "vmdk-extents":
+            t = c10.make_trace(tid, rng, 60 if thorough else 30, align=al)
+            t["align"], t["many"] = al, False
+            return t
         if fmt in chain_makers:
             t = chain_makers[fmt](tid, rng, 60 if thorough else 40, align=al)
             t["align"], t["many"] = al, False
